@@ -599,3 +599,67 @@ def rec_case(seed, deep=False):
 
 def recdeep_case(seed):
   return rec_case(seed, deep=True)
+
+
+# ---------------------------------------------------------------- family: sugarbase (C11 sites)
+
+def sugarbase_case(seed):
+  """programs rich in sites where a documented shorthand applies (incl. nested contexts)."""
+  rnd = random.Random(seed ^ 0x5c11)
+  x, y, z, u, v, m = [Var(n) for n in 'xyzuvm']
+  rules = []
+  fbody = rnd.choice([A('E', x, y), A('F', y, x), Conj([A('E', x, z), A('F', z, y)])])
+  rules.append(Rule('Fn', [x], value=rnd.choice([y, Bin('+', y, Num(1))]), body=fbody,
+                    value_style=rnd.choice(['=', 'logica_value'])))
+  kind = rnd.choice(['neg_call', 'combine_call', 'impl_call', 'multi_rule', 'in_list', 'value_agg',
+                     'call_chain', 'neg_call', 'combine_call', 'multi_rule'])
+  c = Num(rnd.choice([0, 1, 2]))
+  if kind == 'neg_call':
+    pos = rnd.choice([[A('G', y)], [A('E', x, y)]])
+    inner = rnd.choice([Cmp('>', Call('Fn', [y], []), c),
+                        Conj([A('F', y, z), Cmp('<', Call('Fn', [z], []), c)]),
+                        Cmp('==', Call('Fn', [y], []), y)])
+    rules.append(Rule('P', [y], body=Conj(pos + [Neg(inner if isinstance(inner, Conj) else Conj([inner]))])))
+  elif kind == 'combine_call':
+    op = rnd.choice(['Sum', 'Min', 'Max', 'Count'])
+    style = rnd.choice(['brace', 'combine', 'concise'])
+    body = rnd.choice([[A('E', x, z)], [A('F', z, x)], [A('E', x, z), Cmp('>', Call('Fn', [z], []), c)]])
+    agg = AggE(op, rnd.choice([Call('Fn', [z], []), Bin('+', Call('Fn', [z], []), z)]), Conj(body), style)
+    rules.append(Rule('P', [x, m], body=Conj([A('G', x), Cmp('==', m, agg)])))
+  elif kind == 'impl_call':
+    rules.append(Rule('P', [x], body=Conj([A('G', x), Impl(A('E', x, y), Cmp('>', Call('Fn', [y], []), c))])))
+  elif kind == 'multi_rule':
+    hd = rnd.choice([[x], [x, Bin('+', x, Num(1))]])
+    b1 = Conj([A('G', x), rnd.choice([A('E', x, y), Cmp('>', x, c)])])
+    b2 = rnd.choice([A('F', x, x), Conj([A('E', x, z), A('G', z)]), Conj([A('F', x, y), Cmp('<', y, c)])])
+    b3 = Conj([A('E', y, x), Cmp('==', Call('Fn', [y], []), x)])
+    rules.append(Rule('P', hd, body=b1))
+    rules.append(Rule('P', hd, body=b2))
+    if rnd.random() < 0.5:
+      rules.append(Rule('P', hd, body=b3))
+    if rnd.random() < 0.5:
+      rules.append(Rule('Cnt', [], value=Agg('Sum', Num(1)), body=A('P', *[Var('p%d' % i) for i in range(len(hd))])))
+  elif kind == 'in_list':
+    lst = ListE([rnd.choice([Num(0), Num(1), y, Bin('+', y, Num(1))]) for _ in range(rnd.randint(1, 3))])
+    rules.append(Rule('P', [x, y], body=Conj([A('E', y, z), InP(x, lst)])))
+  elif kind == 'value_agg':
+    op = rnd.choice(['Sum', 'Min', 'Max', 'Count'])
+    rules.append(Rule('P', [x], value=Agg(op, Call('Fn', [y], [])), body=A('E', x, y)))
+    rules.append(Rule('Q', [x, v], body=Conj([A('G', x), Cmp('==', v, Call('P', [x], []))])))
+  elif kind == 'call_chain':
+    rules.append(Rule('P', [x, Bin('+', Call('Fn', [Call('Fn', [x], [])], []), Num(1))], body=A('G', x)))
+  prog = Program(rules, ext=EXT)
+  return Case(prog, 'sugarbase', K=2, notes=kind)
+
+
+# ---------------------------------------------------------------- fixed witnesses of known findings
+
+def kfc02_case(seed):
+  """KF-C02-list-of-nothing: always exercised so that the finding is re-observed each run."""
+  x, y, l = Var('x'), Var('y'), Var('l')
+  variants = [
+      Rule('A', [x, l], body=Conj([A('G', x), Cmp('==', l, AggE('List', y, Conj([A('E', x, y)]), 'brace'))])),
+      Rule('A', [x, Size(l)], body=Conj([A('G', x), Cmp('==', l, AggE('List', y, Conj([A('E', x, y)]), 'concise'))])),
+  ]
+  prog = Program([variants[seed % len(variants)]], ext=EXT)
+  return Case(prog, 'kf_witness', K=2, notes='KF-C02-list-of-nothing witness')
